@@ -337,7 +337,7 @@ def run(tape, prop, tier):
                                         allow_nobody_with_length=False, allow_lf=False, allow_fold=False)
             script.append(resp)
         if faults_on:
-            cands = [x for x in script if x.coding != 'identity']
+            cands = [x for x in script if x.coding not in ('identity', 'gzip-identity')]
             if cands and damage_coded(tape, cands[tape.draw(len(cands), 'damage.which')]):
                 r.faults['coded_' + cands[0].desc.get('damage', 'damaged')] += 1
         r.sub = 'damaged' if faults_on else 'fault-free'
